@@ -91,6 +91,7 @@ type OptSpec struct {
 	Username         string   `json:"username,omitempty"`
 	Password         string   `json:"password,omitempty"`
 	DynAuth          bool     `json:"dyn_auth,omitempty"` // credentials through AuthCredentialsFn
+	StaticDecoy      bool     `json:"static_decoy,omitempty"` // with DynAuth: static Username/Password are configured as well (and must not be used)
 	ClientName       string   `json:"client_name,omitempty"`
 	SelectDB         int      `json:"select_db,omitempty"`
 	NoTouch          bool     `json:"no_touch,omitempty"`
@@ -251,6 +252,9 @@ func (e *env) clientOption() ClientOption {
 		user, pass := o.Username, o.Password
 		opt.AuthCredentialsFn = func(AuthCredentialsContext) (AuthCredentials, error) {
 			return AuthCredentials{Username: user, Password: pass}, nil
+		}
+		if o.StaticDecoy {
+			opt.Username, opt.Password = "decoy", "decoy-pw"
 		}
 	} else {
 		opt.Username, opt.Password = o.Username, o.Password
